@@ -21,8 +21,13 @@ import (
 // pair of accesses between them regardless of wall-clock overlap.
 type Sched struct {
 	baton   int32
+	cur     int32   // task holding the baton (written by the coordinator before the hand-over)
+	done    []int32 // per task: 1 once its script has ended
 	wg      sync.WaitGroup
 	Isolate bool // empty all sync.Pools before every step (see RunTasks)
+	// MaxYields bounds the number of in-step yields (I/O points) honoured per task; further Yield calls return at once
+	MaxYields int
+	yields    []int32
 }
 
 //go:norace
@@ -35,12 +40,37 @@ func (s *Sched) waitFor(me int32) {
 	}
 }
 
+//go:norace
+func (s *Sched) setCur(id int32) { s.cur = id }
+
+// Yield is a scheduling point INSIDE a step (an I/O point: the simulated device calls it from Read/Write/Seek): the
+// running task hands the baton back and continues only when the scheduler picks it again. It is a no-op outside
+// RunTasks (solo executions) and once the task has used up its yield budget.
+//
+//go:norace
+func (s *Sched) Yield() {
+	if s == nil || s.cur == 0 || s.done == nil {
+		return
+	}
+	id := s.cur
+	if s.MaxYields > 0 && s.yields[id-1] >= int32(s.MaxYields) {
+		return
+	}
+	s.yields[id-1]++
+	s.baton = 0
+	for s.baton != id {
+		runtime.Gosched()
+	}
+}
+
 // RunTasks executes the given scripts (one slice of steps per task) under the seeded schedule.
-// choose(runnable) returns the index (into runnable) of the task to release next.
-// The returned schedule lists the task ids in execution order.
+// choose(runnable) returns the index (into runnable) of the task to release next; it is called at every scheduling
+// point: step boundaries and in-step yields. The returned schedule lists the task ids in execution order.
 func (s *Sched) RunTasks(scripts [][]func(), choose func(runnable []int) int) []int {
 	n := len(scripts)
 	s.baton = 0
+	s.done = make([]int32, n)
+	s.yields = make([]int32, n)
 	for id := 1; id <= n; id++ {
 		s.wg.Add(1)
 		go func(id int32, steps []func()) {
@@ -52,23 +82,25 @@ func (s *Sched) RunTasks(scripts [][]func(), choose func(runnable []int) int) []
 			}
 		}(int32(id), scripts[id-1])
 	}
-	left := make([]int, n)
-	total := 0
+	left := make([]int, n) // steps not yet completed
 	for i, sc := range scripts {
 		left[i] = len(sc)
-		total += len(sc)
 	}
+	inStep := make([]bool, n) // the task yielded inside a step and must be resumed before its step count drops
 	var order []int
-	for total > 0 {
+	for {
 		var runnable []int
 		for i := range left {
 			if left[i] > 0 {
 				runnable = append(runnable, i)
 			}
 		}
+		if len(runnable) == 0 {
+			break
+		}
 		pick := runnable[choose(runnable)]
 		order = append(order, pick)
-		if s.Isolate {
+		if s.Isolate && !inStep[pick] {
 			// sync.Pool (used by fmt and others) carries race-detector happens-before edges from the goroutine that
 			// Puts an object to the one that Gets it; between serialised steps that would order the tasks and hide
 			// their races, and which task gets which pooled object is not decided by the tape. Two collections empty
@@ -76,14 +108,24 @@ func (s *Sched) RunTasks(scripts [][]func(), choose func(runnable []int) int) []
 			runtime.GC()
 			runtime.GC()
 		}
+		before := s.yieldCount(pick)
+		s.setCur(int32(pick + 1))
 		s.give(int32(pick + 1))
 		s.waitFor(0)
-		left[pick]--
-		total--
+		if s.yieldCount(pick) != before {
+			inStep[pick] = true // came back through Yield: same step continues next time
+		} else {
+			inStep[pick] = false
+			left[pick]--
+		}
 	}
+	s.setCur(0)
 	s.wg.Wait() // only now a real synchronisation: everything the tasks wrote is visible to the caller
 	return order
 }
+
+//go:norace
+func (s *Sched) yieldCount(i int) int32 { return s.yields[i] }
 
 // ---- race detector log
 
